@@ -35,9 +35,13 @@
 (* with it; top/bottom always the points' own times.                                                         *)
 (*                                                                                                          *)
 (* Deliberate limits (named deviations):                                                                     *)
-(*  - integral under GROUP BY time is only claimed when consecutive points lie in the same or in adjacent    *)
-(*    windows (the code credits the area over an entirely empty window to the next non-empty window; the     *)
-(*    documentation does not define that case) - CaseOK.                                                     *)
+(*  - integral under GROUP BY time: the curve is cut at the END OF THE WINDOW OF EACH POINT; when the next     *)
+(*    point lies beyond one or more wholly empty windows, the area from that cut up to the next point is     *)
+(*    credited to the next point's window and the empty windows produce no row (this is what the unchanged   *)
+(*    code does; the documentation does not define the case).  If that next point is the last one and lies   *)
+(*    exactly on its window start, Close() discards the window together with the credited area: optional row. *)
+(*  - ORDER BY time DESC is modelled for top/bottom (Cases with desc = 1): the points reach the reducer      *)
+(*    newest first, the selection is the same, the rows come out in descending time order.                   *)
 (*  - a window whose part of the curve is a single instant (one lone point; or last point exactly on the     *)
 (*    window start) has area 0; whether a row is produced is not documented: the row is optional (4th field).*)
 (*  - ModeQuirk = TRUE models mode() as it is at the pinned commit (section 8, F13): TLC then reports the     *)
@@ -47,12 +51,15 @@ EXTENDS Integers, Sequences, FiniteSets, TLC
 CONSTANTS MaxT,        \* timestamps 0..MaxT
           MaxLen,      \* series length bound
           Vals,        \* value domain
-          Cases,       \* set of <<fn, par, w>>
+          Cases,       \* set of <<fn, par, w, desc>>  (desc = 1: ORDER BY time DESC, points reach the reducer newest first)
           ModeQuirk    \* BOOLEAN
 
-VARIABLES fn, par, w, series, exp,     \* the case and the definition's rows (contract layer)
+VARIABLES fn, par, w, desc, series, exp,   \* the case and the definition's rows (contract layer)
           i, st, out, done             \* the machine: points consumed, reducer/iterator state, rows emitted
-vars == <<fn, par, w, series, exp, i, st, out, done>>
+vars == <<fn, par, w, desc, series, exp, i, st, out, done>>
+Reverse(s) == [k \in 1..Len(s) |-> s[Len(s) + 1 - k]]
+\* the order in which the iterators deliver the points
+Input == IF desc = 1 THEN Reverse(series) ELSE series
 
 \* ---------------------------------------------------------------------------------------------- helpers
 T(p) == p[1]
@@ -129,10 +136,13 @@ IntegralDef(s, u, ww) ==
         LET inw == {j \in DOMAIN s : WinIdx(T(s[j]), ww) = k}
             f  == MinOf(inw)
             l  == MaxOf(inw)
-            lo == IF f > 1 THEN k * ww ELSE T(s[f])
+            lo == IF f > 1 THEN WinEnd(WinIdx(T(s[f - 1]), ww), ww) ELSE T(s[f])   \* = k * ww unless windows were skipped
             hi == IF l < Len(s) THEN WinEnd(k, ww) ELSE T(s[l])
             ar == RDivI(AreaFrom(s, 1, lo, hi), u)
-        IN IF lo = hi THEN <<k * ww, 0, 1, 1>> ELSE Row(k * ww, ar)
+        IN IF lo = hi THEN <<k * ww, 0, 1, 1>>
+           ELSE IF hi = k * ww THEN <<k * ww, ar[1], ar[2], 1>>   \* last point of the series on its window start after skipped
+                                                                  \* windows: Close() discards the window (and the credited area)
+           ELSE Row(k * ww, ar)
   IN [j \in 1..Len(ws) |-> RowOf(ws[j])]
 
 \* ---- aggregates and selectors over the points of one window
@@ -186,13 +196,15 @@ AggDef(f, a, ww, pts, t0) ==
     [] f = "top" -> TopBottomDef(pts, a, TRUE)
     [] f = "bottom" -> TopBottomDef(pts, a, FALSE)
 
-Def(f, a, ww, s) ==
+DefAsc(f, a, ww, s) ==
   IF s = <<>> THEN <<>>
   ELSE IF Kind(f) = "stream" THEN StreamDef(f, a, s)
   ELSE IF f = "integral" THEN IntegralDef(s, a, ww)
   ELSE LET ws == SortSet({WinIdx(T(s[k]), ww) : k \in DOMAIN s})
            InW(k) == LET Test(p) == WinIdx(T(p), ww) = k IN SelectSeq(s, Test)
        IN Flatten([j \in 1..Len(ws) |-> AggDef(f, a, ww, InW(ws[j]), ws[j] * ww)])
+
+Def(f, a, ww, dd, s) == IF dd = 1 THEN Reverse(DefAsc(f, a, ww, s)) ELSE DefAsc(f, a, ww, s)
 
 \* rows produced match the definition's rows (optional rows may be missing)
 RECURSIVE Matches(_, _)
@@ -350,7 +362,8 @@ EmitReduce(f, a, s) ==
               IN <<Row(ZeroT, RDivI(SqDev(s.pts, 1, mean), Len(s.pts) - 1))>>
     [] f = "distinct" -> [k \in 1..Len(s.seen) |-> IRow(T(s.seen[k]), V(s.seen[k]))]
     [] f \in {"top", "bottom"} ->
-         LET ts == SortSet({T(x) : x \in s.heap})            \* the iterator sorts the emitted points by time
+         LET ts0 == SortSet({T(x) : x \in s.heap})           \* the iterator sorts the emitted points by time
+             ts == IF desc = 1 THEN Reverse(ts0) ELSE ts0
          IN [j \in 1..Len(ts) |-> LET x == CHOOSE p \in s.heap : T(p) = ts[j] IN IRow(T(x), V(x))]
 
 \* time stamping done above the reducer: points without a time get the window start; a selector's own time is kept
@@ -363,9 +376,7 @@ Stamp(f, ww, rows, t0) ==
 RECURSIVE MkSeries(_, _)
 MkSeries(ts, f) == IF ts = <<>> THEN <<>> ELSE <<<<Head(ts), f[Head(ts)]>>>> \o MkSeries(Tail(ts), f)
 
-\* windowed integral: consecutive points in the same or adjacent windows (see header)
-CaseOK(f, ww, s) ==
-  (f = "integral" /\ ww > 0) => \A k \in 1..(Len(s) - 1) : WinIdx(T(s[k + 1]), ww) - WinIdx(T(s[k]), ww) <= 1
+CaseOK(f, ww, s) == TRUE      \* (no series is excluded any more)
 
 InitMachine(f, a) == IF Kind(f) = "stream" THEN InitStream(f, a)
                      ELSE IF f = "integral" THEN InitIntegral ELSE InitReduce
@@ -376,25 +387,25 @@ Init ==
     /\ \E f \in [TS -> Vals] :
          LET s == MkSeries(SortSet(TS), f)
          IN /\ CaseOK(c[1], c[3], s)
-            /\ fn = c[1] /\ par = c[2] /\ w = c[3]
+            /\ fn = c[1] /\ par = c[2] /\ w = c[3] /\ desc = c[4]
             /\ series = s
-            /\ exp = Def(c[1], c[2], c[3], s)
+            /\ exp = Def(c[1], c[2], c[3], c[4], s)
             /\ i = 0 /\ st = InitMachine(c[1], c[2]) /\ out = <<>> /\ done = FALSE
 
 \* ---------------------------------------------------------------------------------------------- machine steps
 \* stream iterator: Aggregate(p) then Emit()
 FeedStream ==
   /\ ~done /\ Kind(fn) = "stream" /\ i < Len(series)
-  /\ LET e == EmitStream(fn, par, AggStream(fn, par, st, series[i + 1]))
+  /\ LET e == EmitStream(fn, par, AggStream(fn, par, st, Input[i + 1]))
      IN st' = e.st /\ out' = out \o e.rows
   /\ i' = i + 1
-  /\ UNCHANGED <<fn, par, w, series, exp, done>>
+  /\ UNCHANGED <<fn, par, w, desc, series, exp, done>>
 FeedIntegral ==
   /\ ~done /\ fn = "integral" /\ i < Len(series)
-  /\ LET e == EmitIntegral(AggIntegral(par, w, st, series[i + 1]))
+  /\ LET e == EmitIntegral(AggIntegral(par, w, st, Input[i + 1]))
      IN st' = e.st /\ out' = out \o e.rows
   /\ i' = i + 1
-  /\ UNCHANGED <<fn, par, w, series, exp, done>>
+  /\ UNCHANGED <<fn, par, w, desc, series, exp, done>>
 \* end of input: Close() flushes the integral reducer, then Emit()
 FinishStream ==
   /\ ~done /\ Kind(fn) \in {"stream", "integral"} /\ i = Len(series)
@@ -402,27 +413,27 @@ FinishStream ==
      THEN LET e == EmitIntegral(CloseIntegral(st)) IN st' = e.st /\ out' = out \o e.rows
      ELSE UNCHANGED <<st, out>>
   /\ done' = TRUE
-  /\ UNCHANGED <<fn, par, w, series, exp, i>>
+  /\ UNCHANGED <<fn, par, w, desc, series, exp, i>>
 \* reduce iterator: all points of the current window go to one reducer ...
 FeedReduce ==
   /\ ~done /\ Kind(fn) = "reduce" /\ i < Len(series)
-  /\ LET p == series[i + 1]
+  /\ LET p == Input[i + 1]
          k == WinIdx(T(p), w)
      IN /\ st.win \in {-1, k}
         /\ st' = AggReduce(fn, par, [st EXCEPT !.win = k], p)
   /\ i' = i + 1
-  /\ UNCHANGED <<fn, par, w, series, exp, out, done>>
+  /\ UNCHANGED <<fn, par, w, desc, series, exp, out, done>>
 \* ... whose Emit() is taken when the window ends; the rows are stamped
 FlushReduce ==
   /\ ~done /\ Kind(fn) = "reduce" /\ st.win # -1
-  /\ (IF i = Len(series) THEN TRUE ELSE WinIdx(T(series[i + 1]), w) # st.win)
+  /\ (IF i = Len(series) THEN TRUE ELSE WinIdx(T(Input[i + 1]), w) # st.win)
   /\ out' = out \o Stamp(fn, w, EmitReduce(fn, par, st), st.win * w)
   /\ st' = InitReduce
-  /\ UNCHANGED <<fn, par, w, series, exp, i, done>>
+  /\ UNCHANGED <<fn, par, w, desc, series, exp, i, done>>
 FinishReduce ==
   /\ ~done /\ Kind(fn) = "reduce" /\ i = Len(series) /\ st.win = -1
   /\ done' = TRUE
-  /\ UNCHANGED <<fn, par, w, series, exp, i, st, out>>
+  /\ UNCHANGED <<fn, par, w, desc, series, exp, i, st, out>>
 
 Next == FeedStream \/ FeedIntegral \/ FinishStream \/ FeedReduce \/ FlushReduce \/ FinishReduce
 Spec == Init /\ [][Next]_vars
@@ -438,18 +449,18 @@ TypeOK == /\ i \in 0..Len(series) /\ done \in BOOLEAN
           /\ \A k \in DOMAIN exp : Len(exp[k]) \in {3, 4} /\ exp[k][3] >= 0
 
 \* ---------------------------------------------------------------------------------------------- case sets
-StreamCases == {<<"derivative", 1, 0>>, <<"derivative", 2, 0>>,
-                <<"non_negative_derivative", 1, 0>>, <<"non_negative_derivative", 2, 0>>,
-                <<"difference", 0, 0>>, <<"non_negative_difference", 0, 0>>,
-                <<"moving_average", 2, 0>>, <<"moving_average", 3, 0>>, <<"moving_average", 4, 0>>,   \* n = 1 is rejected by the compiler
-                <<"cumulative_sum", 0, 0>>,
-                <<"elapsed", 1, 0>>, <<"elapsed", 2, 0>>, <<"elapsed", 3, 0>>}
-IntegralCases == {<<"integral", u, ww>> : u \in {1, 2}, ww \in {0, 2, 3}}
-AggCases == {<<f, 0, ww>> : f \in {"median", "mode", "spread", "stddev", "distinct"}, ww \in {0, 2, 3}}
-PercentileCases == {<<"percentile", p, ww>> : p \in {1, 25, 50, 75, 90, 100}, ww \in {0, 2}}
-TopBottomCases == {<<f, n, ww>> : f \in {"top", "bottom"}, n \in {1, 2, 3}, ww \in {0, 2}}
+StreamCases == {<<"derivative", 1, 0, 0>>, <<"derivative", 2, 0, 0>>,
+                <<"non_negative_derivative", 1, 0, 0>>, <<"non_negative_derivative", 2, 0, 0>>,
+                <<"difference", 0, 0, 0>>, <<"non_negative_difference", 0, 0, 0>>,
+                <<"moving_average", 2, 0, 0>>, <<"moving_average", 3, 0, 0>>, <<"moving_average", 4, 0, 0>>,   \* n = 1 is rejected by the compiler
+                <<"cumulative_sum", 0, 0, 0>>,
+                <<"elapsed", 1, 0, 0>>, <<"elapsed", 2, 0, 0>>, <<"elapsed", 3, 0, 0>>}
+IntegralCases == {<<"integral", u, ww, 0>> : u \in {1, 2}, ww \in {0, 2, 3}}
+AggCases == {<<f, 0, ww, 0>> : f \in {"median", "mode", "spread", "stddev", "distinct"}, ww \in {0, 2, 3}}
+PercentileCases == {<<"percentile", p, ww, 0>> : p \in {1, 25, 50, 75, 90, 100}, ww \in {0, 2}}
+TopBottomCases == {<<f, n, ww, dd>> : f \in {"top", "bottom"}, n \in {1, 2, 3}, ww \in {0, 2}, dd \in {0, 1}}
 AllCases == StreamCases \cup IntegralCases \cup AggCases \cup PercentileCases \cup TopBottomCases
-ModeCases == {<<"mode", 0, 0>>, <<"mode", 0, 3>>}
+ModeCases == {<<"mode", 0, 0, 0>>, <<"mode", 0, 3, 0>>}
 Vals5 == -2..2          \* (negative literals cannot be written in a cfg)
 Vals3 == -1..1
 =============================================================================
